@@ -168,7 +168,7 @@ def bayes(sx, shape, sym_obs_row=None, belief_sel=None, declared_obs=False, perm
 
 
 def jobs(tier):
-    o = dict(timeout_ms=15000, budget_s=(300 if tier == 'quick' else 900), max_paths=5000)
+    o = dict(timeout_ms=15000, budget_s=(120 if tier == 'quick' else 900), max_paths=5000)
     for i, sh in enumerate(SHAPES):
         yield ('bayes', dict(shape=i), dict(o, cost=5))
         yield ('bayes', dict(shape=i, declared_obs=True), dict(o, cost=5))
